@@ -137,6 +137,7 @@ inductive Outcome where
   | unchanged     -- `!initial && !c.HasChanged(k)`: the block is skipped
   | errInitial    -- error on the initial load: NewLightHouseFromConfig fails, there is no lighthouse
   | errReload     -- error on a reload: logged by the callback, nothing stored
+  | errEarlier    -- an earlier block of `LightHouse.reload` returned its error: this block was not reached
   deriving DecidableEq, Repr
 
 /-- `c.HasChanged(k)`: the YAML serialisations of the old and the new value differ (modelled as: the values
@@ -155,7 +156,16 @@ def cfgStep (initial : Bool) (s : LHState) (c : CfgV) : LHState × Outcome :=
 inductive CfgOp where
   | load (c : CfgV)       -- NewLightHouseFromConfig on a fresh LightHouse (pointer nil)
   | reload (c : CfgV)     -- config.C.ReloadConfigString → the registered callback → `reload(c, false)`
+  /-- a reload in which an earlier block of `LightHouse.reload` (advertise_addrs, remote_allow_list,
+  local_allow_list) returns an error: the function returns before the calculated_remotes block, but `config.C` has
+  already replaced its settings, so the next `HasChanged` compares against THIS value of the key. -/
+  | reloadEarlierErr (c : CfgV)
   deriving DecidableEq, Repr
+
+/-- the reload (if it is one) reaches the `lighthouse.calculated_remotes` block. -/
+def CfgOp.reachesBlock : CfgOp → Bool
+  | .reloadEarlierErr _ => false
+  | _ => true
 
 /-- `none` = there is no lighthouse (nothing loaded yet, or the initial load failed). -/
 def cfgRun1 (s : Option LHState) : CfgOp → Option LHState × Option Outcome
@@ -167,6 +177,10 @@ def cfgRun1 (s : Option LHState) : CfgOp → Option LHState × Option Outcome
     match s with
     | none => (none, none)
     | some s => let r := cfgStep false s c; (some r.1, some r.2)
+  | .reloadEarlierErr c =>
+    match s with
+    | none => (none, none)
+    | some s => (some { s with prev := c }, some .errEarlier)
 
 def cfgRun (s : Option LHState) : List CfgOp → Option LHState
   | [] => s
